@@ -825,6 +825,94 @@ fn exec_line(line: &str) -> Outcome {
                 Err(_) => Outcome::ok("panic").fail("bits.panic", "num_modulus_bits panicked"),
             }
         },
+        ["optsb", q, b, g, e, ff, fr] => {
+            // ProofOptions read from (untrusted) bytes: accepted exactly like the constructor, refused with an error
+            let v: Option<Vec<u64>> = [q, b, g, e, ff, fr].iter().map(|s| p(s)).collect();
+            let Some(v) = v else { return Outcome::ok("bad-op") };
+            if v.iter().any(|x| *x > 255) {
+                return Outcome::ok("bad-op");
+            }
+            let bytes: Vec<u8> = v.iter().map(|x| *x as u8).collect();
+            let r = guarded(|| ProofOptions::read_from_bytes(&bytes));
+            let out = match &r {
+                Ok(Ok(_)) => "ok",
+                Ok(Err(_)) => "err",
+                Err(_) => "panic",
+            };
+            let pow2 = |x: u64| x != 0 && x & (x - 1) == 0;
+            let documented_ok = (1..=255).contains(&v[0])
+                && pow2(v[1])
+                && (2..=128).contains(&v[1])
+                && v[2] <= 32
+                && (1..=3).contains(&v[3])
+                && [2, 4, 8, 16].contains(&v[4])
+                && pow2(v[5] + 1);
+            let mut o = Outcome::ok(out);
+            if out != (if documented_ok { "ok" } else { "err" }) {
+                o = o.fail("optsb.read_from", format!("documented acceptance {} but read_from gives {}", documented_ok, out));
+            }
+            if let Ok(Ok(po)) = r {
+                if po.to_bytes() != bytes {
+                    o = o.fail("optsb.roundtrip", "options read from bytes do not write back to them");
+                }
+            }
+            o
+        },
+        ["ctx", field, l2, b] => {
+            // the two public constructors of a Context: Context::new (asserts) and read_from (errors)
+            let (Some(l2), Some(b)) = (p(l2), p(b)) else { return Outcome::ok("bad-op") };
+            if l2 < 3 || l2 > 63 || !BLOWUPS.contains(&b) || !["f64", "f62", "f128"].contains(field) {
+                return Outcome::ok("bad-op");
+            }
+            let op = Opt { q: 1, b, g: 0, ext: 1, ff: 2, fr: 0 };
+            let m = field_modulus(field);
+            let read = make_ctx(1, &op, l2 as u8, &m);
+            let built = guarded(|| {
+                let ti = TraceInfo::new(1, 1usize << l2);
+                let po = mk_options(&op).unwrap();
+                match *field {
+                    "f64" => Context::new::<f64::BaseElement>(ti, po),
+                    "f62" => Context::new::<f62::BaseElement>(ti, po),
+                    _ => Context::new::<f128::BaseElement>(ti, po),
+                }
+            })
+            .ok();
+            let documented_ok = (1u128 << l2) <= u32::MAX as u128 && (1u128 << l2) * b as u128 <= u32::MAX as u128;
+            let mut o = Outcome::ok(if read.is_some() { "ok" } else { "refused" });
+            if read.is_some() != documented_ok {
+                o = o.fail("ctx.read_from", format!("trace 2^{} blowup {}: read_from accepts={} documented={}", l2, b, read.is_some(), documented_ok));
+            }
+            if built.is_some() != documented_ok {
+                o = o.fail("ctx.new", format!("trace 2^{} blowup {}: Context::new accepts={} documented={}", l2, b, built.is_some(), documented_ok));
+            }
+            if let (Some(a), Some(c)) = (&read, &built) {
+                if a != c || a.num_modulus_bits() != c.num_modulus_bits() || a.lde_domain_size() != c.lde_domain_size() {
+                    o = o.fail("ctx.constructors-differ", "Context::new and Context::read_from build different contexts");
+                }
+            }
+            o
+        },
+        ["plevel", cfg, modhex, cr] => {
+            // security_level of an honest proof as produced by the prover and read back from bytes
+            let Some(c) = parse_cfg(cfg) else { return Outcome::ok("bad-op") };
+            let Some(cr) = p(cr) else { return Outcome::ok("bad-op") };
+            if unhex_opt(modhex) != Some(field_modulus(&c.field)) || cr_of(&c.hname) != Some(cr as u32) {
+                return Outcome::ok("bad-op");
+            }
+            let Some((bytes, _)) = get_proof(cfg, &c) else { return Outcome::ok("bad-op") };
+            let proof = Proof::from_bytes(&bytes).expect("own proof");
+            let lc = dispatch(&c.hname, Level { proof: &proof, conj: true }).unwrap();
+            let lp = dispatch(&c.hname, Level { proof: &proof, conj: false }).unwrap();
+            let mut o = Outcome::ok(format!("{} {}", show(lc), show(lp)));
+            let exp = documented(bit_length(&field_modulus(&c.field)), &c.opt, c.log2len, cr as u32);
+            if lc.map(|v| v as u128) != exp {
+                o = o.fail("conj.formula", format!("honest proof {}: conjectured level {} documented {:?}", cfg, show(lc), exp));
+            }
+            if proof.options() != &mk_options(&c.opt).unwrap() || proof.trace_info().length() != 1usize << c.log2len {
+                o = o.fail("plevel.context", "the proof does not carry the options / trace length it was generated with");
+            }
+            o
+        },
         ["conj", _, _, _, _, _, _, _] => sweep(true, &t[1..]),
         ["prov", _, _, _, _, _, _, _, _, _] => sweep(false, &t[1..]),
         ["alpha", b, l2] => {
@@ -903,11 +991,11 @@ fn gen_all(rng: &mut Rng, tier: Tier, n: usize, emit: &mut dyn FnMut(String)) {
     let thorough = tier == Tier::Thorough;
     let mods: Vec<(String, Vec<u8>)> = ["f62", "f64", "f128"].iter().map(|f| (f.to_string(), field_modulus(f))).collect();
     // --- constructor guard
-    let qs = [0u64, 1, 2, 255, 256, 65537];
-    let bs = [0u64, 1, 2, 3, 4, 64, 128, 129, 256];
-    let gs = [0u64, 32, 33, 4294967295];
-    let ffs = [0u64, 1, 2, 3, 4, 8, 16, 32];
-    let frs = [0u64, 1, 2, 3, 7, 127, 255, 256, 511];
+    let qs = [0u64, 1, 2, 254, 255, 256, 65537];
+    let bs = [0u64, 1, 2, 3, 4, 64, 127, 128, 129, 256];
+    let gs = [0u64, 31, 32, 33, 4294967295];
+    let ffs = [0u64, 1, 2, 3, 4, 8, 15, 16, 17, 32];
+    let frs = [0u64, 1, 2, 3, 7, 127, 128, 254, 255, 256, 511];
     for q in qs {
         for b in bs {
             for g in gs {
@@ -1031,6 +1119,111 @@ fn gen_all(rng: &mut Rng, tier: Tier, n: usize, emit: &mut dyn FnMut(String)) {
     for (b, e, l2, q) in [(4u64, 3u64, 18u64, 80u64), (8, 3, 18, 53), (8, 3, 18, 85), (16, 3, 18, 65), (8, 2, 18, 85), (8, 3, 20, 80), (8, 3, 16, 80), (8, 3, 20, 60), (8, 3, 20, 30), (16, 3, 20, 30)] {
         emit(format!("prov {} 20 {} {} {} b3_256 128 {} {}", b, e, l2, m64, q, q));
     }
+    // --- hardening: options read from bytes, boundary product of every byte
+    for q in [0u64, 1, 255] {
+        for b in [0u64, 1, 2, 3, 127, 128, 129, 255] {
+            for g in [0u64, 32, 33, 255] {
+                for e in [0u64, 1, 3, 4] {
+                    for ff in [0u64, 1, 2, 16, 17, 32] {
+                        for fr in [0u64, 1, 2, 127, 254, 255] {
+                            emit(format!("optsb {} {} {} {} {} {}", q, b, g, e, ff, fr));
+                        }
+                    }
+                }
+            }
+        }
+    }
+    // --- hardening: both constructors of a Context on, just below and above the u32 limits
+    for (f, _) in &mods {
+        for b in BLOWUPS {
+            for l2 in (3..=40u64).chain([62, 63]) {
+                emit(format!("ctx {} {} {}", f, l2, b));
+            }
+        }
+    }
+    // --- hardening: every (queries, blowup) pair around the 80-bit grinding floor, and the all-minimum / all-maximum
+    //     corners, under all three AcceptableOptions variants with minima on, just below and just above the level,
+    //     for both estimates (the proven level is computed here with the implementation under test)
+    {
+        let mut tuples: Vec<(Opt, u64, usize, &str)> = vec![];
+        for (bi, b) in BLOWUPS.iter().enumerate() {
+            let lb = log2_exact(*b) as u64;
+            let q0 = 80 / lb;
+            for q in q0.saturating_sub(1)..=q0 + 2 {
+                for g in [0u64, 1, 32] {
+                    for e in 1..=3u64 {
+                        for (fi, l2) in [(0usize, 4u64), (1, 11), (2, 4)] {
+                            let h = ["b3_192", "rp62", "b3_256", "cr256"][(bi + q as usize + e as usize) % 4];
+                            tuples.push((Opt { q, b: *b, g, ext: e, ff: 8, fr: 7 }, l2, fi, h));
+                        }
+                    }
+                }
+            }
+        }
+        // corners: every parameter at its minimum or maximum
+        for mask in 0..32u32 {
+            let pick = |bit: u32, lo: u64, hi: u64| if mask >> bit & 1 == 1 { hi } else { lo };
+            let b = pick(1, 2, 128);
+            let l2 = if mask >> 4 & 1 == 1 { 31 - log2_exact(b) as u64 } else { 3 };
+            let o = Opt { q: pick(0, 1, 255), b, g: pick(2, 0, 32), ext: pick(3, 1, 3), ff: pick(0, 2, 16), fr: pick(2, 0, 255) };
+            for fi in 0..3usize {
+                for h in ["cr0", "b3_192", "b3_256", "cr4294967295"] {
+                    tuples.push((o, l2, fi, h));
+                }
+            }
+        }
+        for (x, l2, fi, h) in tuples {
+            let m = &mods[fi].1;
+            let cr = cr_of(h).unwrap();
+            let tail = format!("{} {} {} {} {}", opt_str(&x), l2, hex(m), h, cr);
+            let lc = documented(bit_length(m), &x, l2 as u8, cr).unwrap_or(0) as i64;
+            for min in [lc - 1, lc, lc + 1] {
+                if min >= 0 {
+                    emit(format!("validate conj {} {}", min, tail));
+                }
+            }
+            let lp = level(h, &x, l2 as u8, m, false).flatten().unwrap_or(0) as i64;
+            for min in [lp - 1, lp, lp + 1] {
+                if min >= 0 {
+                    emit(format!("validate proven {} {}", min, tail));
+                }
+            }
+            emit(format!("validate set {} 1 {}", tail, opt_str(&x)));
+            let mut y = x;
+            y.g = if y.g == 32 { 31 } else { y.g + 1 };
+            emit(format!("validate set {} 2 {} {}", tail, opt_str(&y), opt_str(&Opt { fr: if x.fr == 255 { 127 } else { 2 * x.fr + 1 }, ..x })));
+        }
+    }
+    // --- hardening: the proven estimate at the small / large ends of the query range (where `- 1` could underflow and
+    //     where the collision resistance caps), for every blowup, by construction
+    for (_, m) in &mods {
+        for b in BLOWUPS {
+            for g in [0u64, 32] {
+                for e in [1u64, 3] {
+                    for l2 in [3u64, 11] {
+                        for (h, q1, q2) in [("b3_256", 1u64, 12u64), ("b3_192", 244, 255)] {
+                            emit(format!("prov {} {} {} {} {} {} {} {} {}", b, g, e, l2, hex(m), h, cr_of(h).unwrap(), q1, q2));
+                        }
+                    }
+                }
+            }
+        }
+    }
+    // --- hardening: trace lengths around the cap of the proximity parameter (m_max reaches 1000 between 2^10 and 2^11)
+    for l2 in 3..=13u64 {
+        emit(format!("prov 8 16 2 {} {} b3_256 128 20 24", l2, hex(&mods[1].1)));
+    }
+    // --- hardening: a large option set (more than 255 entries), the proof's options last / absent
+    {
+        let x = Opt { q: 27, b: 8, g: 16, ext: 2, ff: 8, fr: 127 };
+        let mut set: Vec<Opt> = (1..=255u64).filter(|q| *q != 27).map(|q| Opt { q, ..x }).collect();
+        set.extend((0..=32u64).filter(|g| *g != 16).map(|g| Opt { g, ..x }));
+        let body = |s: &Vec<Opt>| format!("{} {}", s.len(), s.iter().map(opt_str).collect::<Vec<_>>().join(" "));
+        let tail = format!("{} 10 {} b3_256 128", opt_str(&x), hex(&mods[1].1));
+        emit(format!("validate set {} {}", tail, body(&set)));
+        set.push(x);
+        emit(format!("validate set {} {}", tail, body(&set)));
+    }
     // --- validate
     let nv = if thorough { 30000 } else { 3000 };
     for i in 0..nv {
@@ -1082,6 +1275,8 @@ fn gen_all(rng: &mut Rng, tier: Tier, n: usize, emit: &mut dyn FnMut(String)) {
         "f62/rp62/8/8/0/1/4/7/4",
         "f62/b3_192/6/4/1/3/2/1/3",
         "f62/b3_256/7/16/2/2/8/3/4",
+        "f64/b3_256/1/2/0/1/2/0/3",
+        "f128/sha3/15/2/0/1/16/255/3",
     ];
     let reps = if thorough { 8 } else { 1 };
     for cs in cfgs {
@@ -1153,6 +1348,37 @@ fn gen_all(rng: &mut Rng, tier: Tier, n: usize, emit: &mut dyn FnMut(String)) {
                     emit(format!("{} {} {}", head(1), pol, ctx(&c.opt, c.log2len, m)));
                 }
             }
+            // (d) hardening, by construction: the honest proof's own levels; queries on / below / above the LDE domain
+            //     size; every extension degree; the all-minimum and all-maximum options; minima around the levels
+            emit(format!("plevel {} {} {}", cs, hex(&am), cr));
+            let mut muts: Vec<(Opt, u8)> = vec![];
+            for (l2, b) in [(3u8, 2u64), (3, 4), (4, 4), (3, 16), (5, 8)] {
+                let lde = (1u64 << l2) * b;
+                for q in [lde - 1, lde, lde + 1] {
+                    if (1..=255).contains(&q) {
+                        muts.push((Opt { q, b, ..c.opt }, l2));
+                    }
+                }
+            }
+            for e in 1..=3u64 {
+                muts.push((Opt { ext: e, ..c.opt }, c.log2len));
+            }
+            muts.push((Opt { q: 1, b: 2, g: 0, ext: 1, ff: 2, fr: 0 }, 3));
+            muts.push((Opt { q: 255, b: 128, g: 32, ext: 3, ff: 16, fr: 255 }, 24));
+            muts.push((Opt { q: 255, b: 128, g: 32, ext: 2, ff: 16, fr: 255 }, c.log2len));
+            for (o, l2) in muts {
+                let ok = airok(&o, l2);
+                let lc = documented(bit_length(&am), &o, l2, cr).unwrap_or(0) as i64;
+                let lp = level(&c.hname, &o, l2, &am, false).flatten().unwrap_or(0) as i64;
+                for min in [0, lc, lc + 1] {
+                    emit(format!("{} conj {} {}", head(ok), min, ctx(&o, l2, &am)));
+                }
+                for min in [0, lp, lp + 1] {
+                    emit(format!("{} proven {} {}", head(ok), min, ctx(&o, l2, &am)));
+                }
+                emit(format!("{} set {} 1 {}", head(ok), ctx(&o, l2, &am), opt_str(&o)));
+                emit(format!("{} set {} 1 {}", head(ok), ctx(&o, l2, &am), opt_str(&Opt { ff: if o.ff == 16 { 8 } else { o.ff * 2 }, ..o })));
+            }
             // (c) the AIR's field, but other options / trace length bound into the proof
             for _ in 0..24 {
                 let mut o = c.opt;
@@ -1212,7 +1438,7 @@ impl Prop for P {
         let op = match t[0] {
             "validate" => format!("validate.{}", t.get(1).unwrap_or(&"")),
             "verify" => format!("verify.{}.{}", t.get(1).unwrap_or(&"").split('/').next().unwrap_or(""), t.get(7).unwrap_or(&"")),
-            "opts" | "bits" | "conj" | "prov" | "alpha" => t[0].to_string(),
+            "opts" | "optsb" | "ctx" | "plevel" | "bits" | "conj" | "prov" | "alpha" => t[0].to_string(),
             _ => "malformed".into(),
         };
         let o = if out == "bad-op" || out == "noctx" {
